@@ -519,7 +519,7 @@ fn tasks_for(prop: &str, tier: &str, seed: u64) -> Vec<Task> {
             let mut out = vec![];
             // concrete companion: batch verdict vs individual verdicts, correlated offsets on copies, and long
             // batches (9 and 17 members) natively
-            for (ci, case) in scen_c07::c07_cases(false).into_iter().filter(|c| ["two_honest_mixed_sizes", "gate_free_members_only_honest_and_opaque", "phase2_growth_first"].contains(&c.name.as_str())).enumerate() {
+            for (ci, case) in scen_c07::c07_cases(false).into_iter().filter(|c| ["two_honest_mixed_sizes", "gate_free_members_only_honest_and_opaque", "phase2_growth_first", "honest_with_identity_commitment", "single_honest_only_identity_commitments"].contains(&c.name.as_str())).enumerate() {
                 let c = ["secq256k1", "zorro", "curve25519"][(ci + seed as usize) % 3].to_string();
                 let replay = serde_json::json!({"kind": "c07", "case": case, "seed": seed});
                 out.push(Task {
